@@ -34,17 +34,36 @@ def _callsig(col, rule="C10.R1"):
     repo = col.repo
     opt = repo.cls("Optimize")
     n = 0
+    seen_fn = set()
     for name, fn in opt.methods.items():
-        for c in A.calls(fn):
-            if isinstance(c.func, ast.Attribute) and isinstance(c.func.value, ast.Name) and c.func.value.id == "self" and c.func.attr in ("enable", "disable"):
-                callee = opt.methods[c.func.attr]
+        if id(fn) in seen_fn:
+            continue
+        seen_fn.add(id(fn))
+        if name.startswith("_") and not name.startswith("__") and name not in OPT_KEEP:
+            continue        # private helper: its calls are judged where it is inlined
+        src = A.src(fn)
+        if "enable" not in src and "disable" not in src and not any(isinstance(c.func, ast.Attribute) and c.func.attr.startswith("_") for c in A.calls(fn)):
+            continue
+        try:
+            msx = octx(repo, "Optimize", name)
+        except NotImplementedError:
+            continue
+        for ev in msx.events:
+            if ev.kind != "call":
+                continue
+            for t in S.instances(ev.term, 16):
+                f = t[1] if t[:1] == ("call",) else None
+                if not (f and f[:1] == ("attr",) and f[1] == S.SELF and f[2] in ("enable", "disable")):
+                    continue
+                callee = opt.methods[f[2]]
                 accepted = set(A.params(callee)[1:]) | {a.arg for a in callee.args.kwonlyargs}
-                bad = [k.arg for k in c.keywords if k.arg is not None and k.arg not in accepted]
-                toomany = len(c.args) > len(A.params(callee)) - 1
+                bad = [k for k, _v in t[3] if k != "**" and k not in accepted]
+                toomany = len(t[2]) > len(A.params(callee)) - 1
                 n += 1
-                col.add(rule, f"Optimize.{name}#{c.func.attr}({','.join(k.arg or '**' for k in c.keywords)})@{A.src(c.keywords[0].value) if c.keywords else ''}",
-                        not bad and not toomany, opt.module.loc(c),
-                        f"the call passes only keywords that Optimize.{c.func.attr} accepts {sorted(accepted)}", f"unknown keywords: {bad}")
+                kws = ",".join(k for k, _v in t[3])
+                first = S.show(t[3][0][1], False) if t[3] else ""
+                col.add(rule, f"Optimize.{name}#{f[2]}({kws})@{first}", not bad and not toomany, msx.loc(ev),
+                        f"the call passes only keywords that Optimize.{f[2]} accepts {sorted(accepted)}", f"unknown keywords: {bad}")
     col.count("enable_disable_call_sites", n)
     for meth, state in (("enable", "True"), ("disable", "False")):
         sx = sctx(repo, "Optimize", meth, keep=OPT_KEEP | {"_set_state"})
@@ -140,8 +159,24 @@ def _who_writes(col, rule="C10.R3"):
     repo = col.repo
     m = repo.module("optimize.optimize")
     n = 0
+    private = lambda nm: nm.startswith("_") and not nm.startswith("__") and nm not in OPT_KEEP     # noqa: E731
+    # private helpers that (transitively) write a knob: their stores are judged in the callers they are inlined into
+    writers = {fn.name for mod, c, fn in repo.all_functions() if mod is m and ".container[" in A.src(fn) and private(fn.name)}
+    grew = True
+    while grew:
+        grew = False
+        for mod, c, fn in repo.all_functions():
+            if mod is m and private(fn.name) and fn.name not in writers and any(
+                    (isinstance(x.func, ast.Attribute) and x.func.attr in writers) or (isinstance(x.func, ast.Name) and x.func.id in writers)
+                    for x in A.calls(fn)):
+                writers.add(fn.name)
+                grew = True
     for mod, c, fn in repo.all_functions():
-        if mod is not m or ".container[" not in A.src(fn):
+        if mod is not m or private(fn.name):
+            continue
+        if ".container[" not in A.src(fn) and not any(
+                (isinstance(x.func, ast.Attribute) and x.func.attr in writers) or (isinstance(x.func, ast.Name) and x.func.id in writers)
+                for x in A.calls(fn)):
             continue
         try:
             sx = sctx(repo, c.name if c else None, fn.name, "optimize.optimize" if c is None else None, keep=OPT_KEEP)
